@@ -687,6 +687,8 @@ theorem step_sim (h : Heap) (l : Log) (t : Nat) (o : Op) (hr : Reach h l) :
     exact ⟨⟨_, h2, h3⟩, h1⟩
   | reset =>
     exact ⟨⟨[], reset_sim h ns r, rfl⟩, rfl⟩
+  | idle f =>
+    exact ⟨⟨ns, r, rfl⟩, rfl⟩
 
 theorem run_refines (ops : List Op) : ∀ (h : Heap) (l : Log) (t : Nat), Reach h l →
     run h t ops = Spec.run l t ops := by
@@ -782,6 +784,7 @@ theorem WF_step (l : Log) (t : Nat) (o : Op) (w : WF l t) : WF (Spec.step l t o)
   | exp => exact w.mono (Nat.le_succ t)
   | xreset => exact (w.filter _).mono (Nat.le_succ t)
   | reset => exact WF_nil _
+  | idle f => exact w.mono (Nat.le_succ t)
 
 theorem WF_after (ops : List Op) : ∀ (l : Log) (t : Nat), WF l t →
     WF (Spec.after l t ops) (t + ops.length) := by
@@ -829,6 +832,7 @@ theorem sorted_outputs (ops : List Op) : ∀ (l : Log) (t : Nat), WF l t →
       | exp => simp only [Spec.step] at h; cases h; exact w.sorted
       | xreset => simp only [Spec.step] at h; cases h; exact (w.filter _).sorted
       | reset => cases h
+      | idle f => simp only [Spec.step] at h; split at h <;> cases h
     · exact ih _ _ (WF_step l t o w) es h
 
 /-- What one operation hands to the caller of export-and-reset. -/
@@ -878,6 +882,7 @@ theorem step_rqs_sub (l : Log) (t : Nat) (o : Op) :
   | exp => exact Or.inl hx
   | xreset => exact Or.inl (((List.filter_sublist (l := l)).map _).subset hx)
   | reset => simp [Spec.step, rqs] at hx
+  | idle f => exact Or.inl hx
 
 /-- No request is handed out twice by export-and-reset over the whole life of the log. -/
 theorem returned_inv (ops : List Op) : ∀ (l : Log) (t : Nat), WF l t →
@@ -919,6 +924,7 @@ theorem returned_inv (ops : List Op) : ∀ (l : Log) (t : Nat), WF l t →
         | res id => rfl
         | exp => rfl
         | reset => rfl
+        | idle f => rfl
       simp only [Spec.run, returned, hnil, List.nil_append]
       exact ⟨ihn, hrest⟩
 
@@ -939,6 +945,7 @@ theorem returned_done (ops : List Op) : ∀ (l : Log) (t : Nat),
       | res id => simp [Spec.step, returnedOf] at h
       | exp => simp [Spec.step, returnedOf] at h
       | reset => simp [Spec.step, returnedOf] at h
+      | idle f => simp [Spec.step, returnedOf] at h
     · exact ih _ _ e h
 
 /-- Operations that do not remove entries. -/
@@ -965,6 +972,11 @@ theorem after_quiet (mid : List Op) : ∀ (l : Log) (t : Nat) (e : Ent), e ∈ l
     | exp =>
       obtain ⟨e', h1, h2, h3, h4⟩ := ih l (t + 1) e he hqs
       have : (Op.exp == Op.res e.id) = false := by
+        simp only [beq_eq_false_iff_ne, ne_eq]; intro h; cases h
+      exact ⟨e', h1, h2, h3, by simp [h4, this]⟩
+    | idle f =>
+      obtain ⟨e', h1, h2, h3, h4⟩ := ih l (t + 1) e he hqs
+      have : (Op.idle f == Op.res e.id) = false := by
         simp only [beq_eq_false_iff_ne, ne_eq]; intro h; cases h
       exact ⟨e', h1, h2, h3, by simp [h4, this]⟩
     | req id =>
@@ -1013,6 +1025,7 @@ theorem Spec.run_safe (ops : List Op) : ∀ (l : Log) (t : Nat),
       | exp => simp [Spec.step]
       | xreset => simp [Spec.step]
       | reset => simp [Spec.step]
+      | idle f => simp only [Spec.step]; split <;> simp
     simp only [Spec.run, List.mem_cons, not_or]
     exact ⟨⟨fun e => ho.1 e.symm, h.1⟩, ⟨fun e => ho.2 e.symm, h.2⟩⟩
 
@@ -1052,6 +1065,7 @@ theorem own_step (hist : List Op) (l : Log) (t : Nat) (o : Op) (ht : hist[t]? = 
     simp only [Spec.step, List.mem_filter] at he
     have := hl e he.1; exact ⟨this.1, by omega⟩
   | reset => simp [Spec.step] at he
+  | idle f => have := hl e he; exact ⟨this.1, by omega⟩
 
 theorem own_outputs (ops : List Op) : ∀ (pre : List Op) (l : Log),
     (∀ e ∈ l, Own (pre ++ ops) e ∧ e.rq < pre.length) →
@@ -1070,6 +1084,7 @@ theorem own_outputs (ops : List Op) : ∀ (pre : List Op) (l : Log),
         simp only [Spec.step] at h; cases h
         exact (hl e (List.mem_filter.mp he).1).1
       | reset => cases h
+      | idle f => simp only [Spec.step] at h; split at h <;> cases h
     · have hidx : (pre ++ o :: os)[pre.length]? = some o := by simp
       have hstep := own_step (pre ++ o :: os) l pre.length o hidx hl
       have := ih (pre ++ [o]) (Spec.step l pre.length o).1
